@@ -230,18 +230,21 @@ def _jobs(tier):
 
 
 def _seqs(i1, tier):
+    """(history, deviation bound)"""
     for o2 in OPS:
         if tier == "quick":
-            yield (OPS[i1], o2, CLOSE)
-        else:
+            yield (OPS[i1], o2, CLOSE), 2
             for o3 in OPS:
-                yield (OPS[i1], o2, o3, CLOSE)
+                yield (OPS[i1], o2, o3, CLOSE), 1
+        else:
+            yield (OPS[i1], o2, CLOSE), 3
+            for o3 in OPS:
+                yield (OPS[i1], o2, o3, CLOSE), 2
 
 
 def _worker(job, chk):
     (tr, opt, stack), i1, tier = job
-    bound = 1 if tier == "quick" else 2
-    for seq in _seqs(i1, tier):
+    for seq, bound in _seqs(i1, tier):
         def run(ch, seq=seq):
             return run_history(ch, tr, opt, stack, seq)
 
@@ -275,7 +278,7 @@ def run(chk):
     chk.rule = RULE
     chk.assumptions = ["simnet's socket model: a socket is open from socket() until close(); wrap_socket transfers the descriptor to the wrapper",
                        "every resolved address is served by the same reference server"]
-    chk.info["deviation_bound_completed"] = 1 if chk.tier == "quick" else 2
+    chk.info["deviation_bounds"] = ("2 deviations on op1;op2;close + 1 on op1;op2;op3;close" if chk.tier == "quick" else "3 on op1;op2;close + 2 on op1;op2;op3;close")
     chk.info["configurations"] = len(configs(chk.tier))
     runner.parallel(chk, _worker, _jobs(chk.tier))
 
